@@ -2011,7 +2011,8 @@ def extract(tu_rel, roots, out_c, opts=None, optional_roots=()):
     m['roots'] = rootnames
     m['failed_required'] = bad
     import hashlib
-    m['text_sha'] = {k: hashlib.sha1((v or '').encode()).hexdigest() for k, v in t.out_funcs.items()}
+    # source line numbers (third argument of VERIF_ASSERT) are not part of a function's meaning
+    m['text_sha'] = {k: hashlib.sha1(re.sub(r'(VERIF_ASSERT\(.*?), \d+\)', r'\1, 0)', v or '').encode()).hexdigest() for k, v in t.out_funcs.items()}
     m['global_text'] = dict(t.globals)
     if (opts or {}).get('symbol_prefix'):
         m['types_sha'], _ = apply_symbol_prefix(t, out_c, opts['symbol_prefix'])
